@@ -58,6 +58,7 @@ void SelectLoop::runLoop(Mode mode)
         }
 
         int select_ret = ::select(nfds, &read_set, &write_set, &except_set, p_tv);
+        wait_serial_ = fd_data_serial_;
 
         RECORD_SCOPE();
         beginLoopProcess();
@@ -170,6 +171,7 @@ SelectFdSharedData* SelectLoop::refFdSharedData(int fd)
     if (fd_shared_data == nullptr) {
         fd_shared_data = fd_shared_data_pool_.alloc();
         TBOX_ASSERT(fd_shared_data != nullptr);
+        fd_shared_data->serial = ++fd_data_serial_;
         fd_data_map_.insert(std::make_pair(fd, fd_shared_data));
     }
 
@@ -181,6 +183,10 @@ SelectFdSharedData* SelectLoop::findFdSharedData(int fd) const
 {
     auto it = fd_data_map_.find(fd);
     if (it == fd_data_map_.end())
+        return nullptr;
+
+    //! 本轮等待返回之后才创建的共享数据（fd号被关闭后重新打开复用），内核报告的就绪状态不属于它
+    if (it->second->serial > wait_serial_)
         return nullptr;
 
     return it->second;
